@@ -25,6 +25,8 @@ def run(rep):
     rep.add_tlc(res, "Scat (backward bookkeeping)")
     design_check(rep, res, "Scat")
     scatchecks.backward_checks(rep, fnd, "C09", rep.tier)
+    from .. import autogradchecks
+    autogradchecks.regimes(rep, "C09", autogradchecks.scat_cases(), "C09: two calls before one backward, second backward")
     rep.assumptions += ["finite differences in float64 with step 1e-5 * scale; tolerance 1e-5 relative",
                         "the property requires magbias > 0"]
 
